@@ -202,6 +202,23 @@ _bic_iso9362_re ='''),
             index = registry.get("bank_code")
             assert isinstance(index, dict)
             banks = sorted(''')], note="correct Condition-based single-flight initialisation: waiters are SimLocks, must neither hang nor alarm"),
+    dict(id="p14_event_wait_with_timeout", prop="C14", expect="pass", patches=[
+        (BIC, '''_bic_iso9362_re =''', '''import threading
+
+_never_set = threading.Event()
+_poll_lock = threading.Lock()
+_bic_iso9362_re ='''),
+        (BIC, '''        try:
+            index = registry.get("bank_code")
+            assert isinstance(index, dict)
+            banks = sorted(''', '''        _never_set.wait(0.001)  # a timed wait that simply expires
+        got = _poll_lock.acquire(timeout=0.001)  # a timed acquire with a lock-free fallback
+        if got:
+            _poll_lock.release()
+        try:
+            index = registry.get("bank_code")
+            assert isinstance(index, dict)
+            banks = sorted(''')], note="timed waits must time out in the simulation (when nothing else can run), not be reported as a deadlock"),
     dict(id="m14_condition_missing_notify", prop="C14", expect="flag", patches=[
         (BIC, '''_bic_iso9362_re =''', '''import threading
 
@@ -298,6 +315,37 @@ def _get_bban_spec(country_code: str) -> dict[str, Any]:
             found = spec[country_code]
             _spec_hits[country_code] = _spec_hits.get(country_code, 0) + 1
             return found''')], note="a correct `with lock:` section on a hot path: injected aborts must not leak the lock (no abort at the with-exit clean-up)"),
+    dict(id="p15_acquire_try_finally_release", prop="C15", expect="pass", patches=[
+        (REG, '''def get(name: Key) -> Value:
+    if has(name):
+        return _registry[name]
+''', '''import threading
+
+_get_lock = threading.Lock()
+
+
+def get(name: Key) -> Value:
+    if has(name):
+        return _registry[name]
+    _get_lock.acquire()
+    try:
+        return _get_unlocked(name)
+    finally:
+        _get_lock.release()
+
+
+def _get_unlocked(name: Key) -> Value:
+    if has(name):
+        return _registry[name]
+''')], note="hand-written acquire/try/finally/release: no abort at the NOP of try: nor at the first instruction after the protected range"),
+    dict(id="p15_index_lists_replaced_by_equal_copies", prop="C15", expect="pass", patches=[
+        (BIC, '''            index = registry.get("bank_code")
+            assert isinstance(index, dict)
+            banks = sorted(''', '''            index = registry.get("bank_code")
+            assert isinstance(index, dict)
+            if (country_code, bank_code) in index:
+                index[(country_code, bank_code)] = [dict(e) for e in index[(country_code, bank_code)]]
+            banks = sorted(''')], note="an index list is rebuilt with equal copies: content, order and membership preserved - an addition, not a modification"),
     # ---------------------------------------------------------------- C13
     dict(id="m13_country_from_hash_ordered_set", prop="C13", expect="flag", patches=[
         (BBAN, '''            country_code = random.choice(list(banks_by_country.keys()))''',
@@ -329,6 +377,24 @@ from random import Random
     dict(id="p13_sorted_country_choice", prop="C13", expect="pass", patches=[
         (BBAN, '''            country_code = random.choice(list(banks_by_country.keys()))''',
          '''            country_code = random.choice(sorted(banks_by_country))''')], note="changes which country a seed gives, but reproducibly"),
+    dict(id="m13_earlier_call_makes_later_draw_drop_a_pin", prop="C13", expect="flag", patches=[
+        (BIC, '''_bic_iso9362_re =''', '''SEEN = {"bic": False}
+_bic_iso9362_re ='''),
+        (BIC, '''        super().__init__()
+        if not allow_invalid:
+            self.validate(enforce_swift_compliance)''', '''        super().__init__()
+        SEEN["bic"] = True
+        if not allow_invalid:
+            self.validate(enforce_swift_compliance)'''),
+        (BBAN, '''        if random is None:
+            random = Random()  # noqa: S311
+''', '''        if random is None:
+            random = Random()  # noqa: S311
+        from schwifty import bic as _bic_mod
+
+        if _bic_mod.SEEN["bic"]:
+            values = {k: v for k, v in values.items() if k != "account_code"}
+''')], note="only the draw after a call history violates (leg after-history must confirm and replay)"),
     dict(id="p13_harmless_clock_and_global_random_use", prop="C13", expect="pass", patches=[
         (BBAN, '''from random import Random
 ''', '''import random as _global_random
